@@ -120,6 +120,7 @@ class Env:
 
         self.Q = Q
         self.P = P
+        self.rejected_effects = []
         self.src = {}
         for k, (kind, name, alias, schema) in SOURCES.items():
             if kind == "table":
@@ -358,6 +359,10 @@ class Env:
                     q.get_parameterized_sql()
                 except Exception:  # noqa
                     pass
+            # what a REJECTED call leaves behind: the argument sources as they were (a refused join must not have aliased its table)
+            # (tables only: an un-aliased SUBQUERY receives its automatic sqN alias when it is handed to join(), before the condition is seen -
+            #  the side effect on an argument that C01 permits)
+            before = {k: v.__dict__.get("alias") for k, v in self.src.items() if SOURCES.get(k, ("",))[0] == "table"}
             try:
                 q2 = self.apply(q, c)
                 excs.append("")
@@ -366,4 +371,7 @@ class Env:
                 raise
             except Exception as ex:  # noqa
                 excs.append(type(ex).__name__)
+                after = {k: v.__dict__.get("alias") for k, v in self.src.items() if SOURCES.get(k, ("",))[0] == "table"}
+                if after != before:
+                    self.rejected_effects.append({"call": c, "error": type(ex).__name__, "changed": sorted(k for k in before if before[k] != after.get(k))})
         return q, excs
